@@ -130,7 +130,7 @@ class C38(Property):
             shapes = [[rng.randint(2, 5), rng.randint(2, 5)] for _ in range(2)]
             hist = [dict(shape=rng.choice(shapes), dtype=rng.choice(["complex64", "complex64", "complex128"]), overwrite=rng.random() < 0.4)
                     for _ in range(rng.randint(1, 6))]
-            cases.append(dict(op="cached", history=hist))
+            cases.append(dict(op="cached", history=hist, effort=rng.choice(["FFTW_ESTIMATE", "FFTW_MEASURE", "FFTW_PATIENT"])))
         lines = []
         for c in cases:
             if c["op"] == "defaults":
@@ -181,7 +181,8 @@ class C38(Property):
                 ctx.count(f"dtype:{got[1]}")
             elif c["op"] in ("fft", "convolve"):
                 x = rand(rs, tuple(c["shape"]), c["dtype"])
-                with libs(True, True if c["backend"] == "mkl" else None), abtem.config.set({"fft": c["backend"]}):
+                with libs(True, True if c["backend"] == "mkl" else None), abtem.config.set(
+                        {"fft": c["backend"], "fftw.planning_effort": ["FFTW_ESTIMATE", "FFTW_MEASURE", "FFTW_PATIENT"][sum(c["shape"]) % 3]}):
                     if c["op"] == "fft":
                         obs = observe_call(lambda a: getattr(F, c["name"])(a, overwrite_x=c["overwrite"]), x)
                     else:
@@ -198,7 +199,7 @@ class C38(Property):
             else:
                 conv = F.CachedFFTWConvolution()
                 trace, err = [], None
-                with traced() as log, abtem.config.set({"fft": "fftw"}):
+                with traced() as log, abtem.config.set({"fft": "fftw", "fftw.planning_effort": c["effort"]}):
                     for h in c["history"]:
                         a = rand(rs, tuple(h["shape"]), h["dtype"]); k = rand(rs, tuple(h["shape"]), h["dtype"]); a0 = a.copy()
                         try:
@@ -262,7 +263,7 @@ class C38(Property):
             ref = {n: getattr(np.fft, n)(x.astype(np.complex128), axes=(-2, -1) if n.endswith("2") else None) for n in NAMES}
             ref["conv"] = np.fft.ifft2(np.fft.fft2(x.astype(np.complex128)) * k)
             for fft in ("numpy", "fftw"):
-                for effort in (("FFTW_ESTIMATE", "FFTW_MEASURE") if fft == "fftw" else ("FFTW_MEASURE",)):
+                for effort in (("FFTW_ESTIMATE", "FFTW_MEASURE", "FFTW_PATIENT") if fft == "fftw" else ("FFTW_MEASURE",)):
                     with abtem.config.set({"fft": fft, "fftw.planning_effort": effort}):
                         for ow in (False, True):
                             for n in NAMES + ["conv"]:
@@ -284,7 +285,7 @@ class C38(Property):
                             ctx.violation(f"lazy-fft2-differs-{fft}", c, {"rel_l2": float(e)})
         elif kind == "cached":
             conv = F.CachedFFTWConvolution()
-            with abtem.config.set({"fft": "fftw"}):
+            with abtem.config.set({"fft": "fftw", "fftw.planning_effort": c.get("effort", "FFTW_MEASURE")}):
                 for shape, dt, ow in c["history"]:
                     a = rand(rs, tuple(shape), dt); k = rand(rs, tuple(shape), dt); a0 = a.copy()
                     try:
@@ -329,9 +330,9 @@ class C38(Property):
                             dtype=rng.choice(["complex64", "complex128"])))
         for _ in range(ctx.n(10, 200)):
             shapes = [[rng.randint(2, 9), rng.randint(2, 9)] for _ in range(2)]
-            out.append(dict(kind="cached", seed=rng.randint(0, 2**31),
+            out.append(dict(kind="cached", seed=rng.randint(0, 2**31), effort=rng.choice(["FFTW_ESTIMATE", "FFTW_MEASURE", "FFTW_PATIENT"]),
                             history=[[rng.choice(shapes), rng.choice(["complex64", "complex128"]), rng.random() < 0.5] for _ in range(rng.randint(2, 6))]))
-        efforts = ("FFTW_ESTIMATE", "FFTW_MEASURE", "FFTW_PATIENT") if ctx.thorough else ("FFTW_ESTIMATE", "FFTW_MEASURE")
+        efforts = ("FFTW_ESTIMATE", "FFTW_MEASURE", "FFTW_PATIENT")
         allcfg = [(f, e, p, l) for f in ("numpy", "fftw") for e in (efforts if f == "fftw" else ("FFTW_MEASURE",))
                   for p in ("float32", "float64") for l in (False, True)]
         for _ in range(ctx.n(3, 40)):
